@@ -42,6 +42,6 @@ check = make_check('C02', _oracle, _nt)
 
 def streams(tier):
     n = 8 if tier == 'quick' else 12
-    return [Stream('forward', check, strategy=lambda: sched.fwd_case(max_tasks=n, min_tasks=1, taskdep=True, end_only=True),
+    return [Stream('forward', check, strategy=lambda: sched.fwd_case(max_tasks=n, min_tasks=1, taskdep=True, end_only=True, lookalike_ids=True),
                    examples={'quick': 10000, 'thorough': 100000}),
             Stream('large', check, strategy=lambda: sched.fwd_case(max_tasks=30, min_tasks=13), examples={'quick': 400, 'thorough': 6000})]
